@@ -26,13 +26,18 @@ func init() {
 			"(R02.2) every path through the memory reload helper clears the cached absolute addresses of the bounds-check elision, and the memory.grow arm reloads; (R02.3) where the backends fold an extend of a 32-bit constant into an address, the signedness of the conversion agrees with the extend kind (a genuine defect of this kind was found and fixed in amd64); " +
 			"(R02.4) in amd64 functions that build a memory operand from an SSA pointer, an emitter with a constant width inside a type/opcode/lane arm accesses exactly the arm's width; (R02.5) the amd64 address folding uses the raw register of a zero-extended 32-bit value, so the only narrowing opcode (Ireduce) must be lowered with a zero-extending 32-bit move; " +
 			"(R02.6) the interpreter's lowering picks an operation of the mnemonic's width and the execution arms use accessors of the width their kind or type tag names. " +
-			"NOT decided: correctness of the emitted comparison and address arithmetic as machine code, soundness of the elision cache across arbitrary block structure, the hasSize arithmetic itself (C14).",
+			"(R02.7) at control-flow joins the elision cache is merged conservatively: every predecessor's record takes part in the intersection (none is skipped under a condition) and where a bound is known on several paths the smaller one is kept. " +
+			"(R02.9) in the interpreter, 32-bit address arithmetic in front of a memory accessor (`offset + 8` for the high half of a v128) is preceded by a wrap-around guard (a genuine defect – v128.load at 0xfffffff8 on a 4 GiB memory read address 0 – was found and fixed); (R02.8) a memory import is linked only when declared and actual sharedness are equal, because the compiler omits the base reload after calls for memories declared shared. " +
+			"NOT decided: correctness of the emitted comparison and address arithmetic as machine code, full soundness of the elision cache across arbitrary block structure (loops, sealing), the hasSize arithmetic itself (C14).",
 		Rules: []core.Rule{
 			{ID: "R02.1", Template: "T-WIDTH", Text: "frontend: address from the checking helper with the mnemonic's width; bulk arms range-check every operand", Min: 100},
 			{ID: "R02.2", Template: "T-MUSTPASS", Text: "memory reload clears the cached absolute addresses on every path; memory.grow reloads", Min: 2},
 			{ID: "R02.3", Template: "T-REPR", Text: "signedness of folded constant extends agrees with the extend kind", Min: 2},
 			{ID: "R02.4", Template: "T-WIDTH", Text: "amd64 memory-operand emitters access exactly the width of their arm", Min: 4},
 			{ID: "R02.5", Template: "T-REPR", Text: "raw-register folding of zero-extends implies a zero-extending lowering of Ireduce", Min: 1},
+			{ID: "R02.7", Template: "T-MUSTPASS", Text: "the elision cache is merged conservatively at joins: every predecessor takes part, the minimum bound is kept", Min: 2},
+			{ID: "R02.8", Template: "T-CONSULT", Text: "a memory import is linked only when declared and actual sharedness are equal (the compiler omits the base reload for memories declared shared)", Min: 1},
+			{ID: "R02.9", Template: "T-WIDTH", Text: "32-bit address arithmetic in front of an interpreter memory accessor is guarded against wrap-around (genuine defect found and fixed: v128.load)", Min: 2},
 			{ID: "R02.6", Template: "T-WIDTH", Text: "interpreter lowering and execution arms agree with the mnemonic's width", Min: 100},
 		},
 		Run: runC02,
@@ -47,6 +52,9 @@ func init() {
 			{Name: "amd64-splat32-loads-8-bytes", File: "internal/engine/wazevo/backend/isa/amd64/machine_vec.go", Old: "\tcase ssa.VecLaneI32x4:\n\t\tm.insert(m.allocateInstr().asMovzxRmR(extModeLQ, am, tmpGp))", New: "\tcase ssa.VecLaneI32x4:\n\t\tm.insert(m.allocateInstr().asMov64MR(am, tmpGp))", Rule: "R02.4", Substr: "lowerLoadSplat"},
 			{Name: "amd64-uload16-loads-4-bytes", File: "internal/engine/wazevo/backend/isa/amd64/machine.go", Old: "\tcase ssa.OpcodeUload16:\n\t\tload.asMovzxRmR(extModeWQ, mem, dst)", New: "\tcase ssa.OpcodeUload16:\n\t\tload.asMovzxRmR(extModeLQ, mem, dst)", Rule: "R02.4", Substr: "lowerExtLoad"},
 			{Name: "amd64-ireduce-plain-copy", File: "internal/engine/wazevo/backend/isa/amd64/machine.go", Old: "\t\tm.insert(m.allocateInstr().asMovzxRmR(extModeLQ, rn, rd))\n\n\tcase ssa.OpcodeAtomicLoad:", New: "\t\tm.copyTo(rn.reg(), rd)\n\n\tcase ssa.OpcodeAtomicLoad:", Old2: "\t\trn := m.getOperand_Mem_Reg(m.c.ValueDefinition(instr.Arg()))\n\t\tretVal := instr.Return()", New2: "\t\trn := m.getOperand_Reg(m.c.ValueDefinition(instr.Arg()))\n\t\tretVal := instr.Return()", Rule: "R02.5", Substr: "Ireduce"},
+			{Name: "v128-load-high-half-unguarded", File: "internal/engine/interpreter/interpreter.go", Old: "\t\t\t\tif uint64(offset)+8 > math.MaxUint32 { // offset+8 must not wrap around on a 4GiB memory.\n\t\t\t\t\tpanic(wasmruntime.ErrRuntimeOutOfBoundsMemoryAccess)\n\t\t\t\t}\n", New: "", Rule: "R02.9", Substr: "ReadUint64Le"},
+			{Name: "merge-skips-empty-predecessors", File: "internal/engine/wazevo/frontend/frontend.go", Old: "\t\t\tc.bounds = append(c.bounds, c.getKnownSafeBoundsAtTheEndOfBlocks(currentBlk.Pred(i).ID()).View())\n\t\t\tc.pointers = append(c.pointers, 0)\n", New: "\t\t\tif b := c.getKnownSafeBoundsAtTheEndOfBlocks(currentBlk.Pred(i).ID()).View(); len(b) > 0 {\n\t\t\t\tc.bounds = append(c.bounds, b)\n\t\t\t\tc.pointers = append(c.pointers, 0)\n\t\t\t}\n", Rule: "R02.7", Substr: "predecessor"},
+			{Name: "merge-keeps-larger-bound", File: "internal/engine/wazevo/frontend/frontend.go", Old: "\t\t\t\t\tif cb.bound < minBound {\n\t\t\t\t\t\tminBound = cb.bound\n\t\t\t\t\t}", New: "\t\t\t\t\tif cb.bound > minBound || minBound == math.MaxUint64 {\n\t\t\t\t\t\tminBound = cb.bound\n\t\t\t\t\t}", Rule: "R02.7", Substr: "minimum"},
 			{Name: "interp-load16-lowered-as-load8", File: "internal/engine/interpreter/compiler.go", Old: "\t\tc.emit(newOperationLoad16(signedUint32, imm))", New: "\t\tc.emit(newOperationLoad8(signedUint32, imm))", Rule: "R02.6", Substr: "OpcodeI32Load16U"},
 			{Name: "interp-store32-arm-writes-8", File: "internal/engine/interpreter/interpreter.go", Old: "\t\tcase operationKindStore32:\n\t\t\tval := uint32(ce.popValue())\n\t\t\toffset := ce.popMemoryOffset(op)\n\t\t\tif !memoryInst.WriteUint32Le(offset, val) {", New: "\t\tcase operationKindStore32:\n\t\t\tval := ce.popValue()\n\t\t\toffset := ce.popMemoryOffset(op)\n\t\t\tif !memoryInst.WriteUint64Le(offset, val) {", Rule: "R02.6", Substr: "operationKindStore32"},
 		},
@@ -61,6 +69,9 @@ func runC02(c *core.Ctx) {
 	checkBackendMemOperandWidths(c)
 	checkIreduceZeroExtends(c)
 	checkInterpreterWidths(c, "R02.6")
+	checkElisionMerge(c, "R02.7")
+	checkSharednessRelation(c, "R02.8")
+	checkAddressWrapGuards(c)
 }
 
 // ---------------------------------------------------------------------------------------------------------
@@ -860,4 +871,229 @@ func ctorWidth(info *types.Info, name string, call *ast.CallExpr) int {
 		}
 	}
 	return 0
+}
+
+// ---------------------------------------------------------------------------------------------------------
+// R02.7 the bounds-check elision cache is merged conservatively at control-flow joins
+
+func checkElisionMerge(c *core.Ctx, rule string) {
+	p := c.Pkg("internal/engine/wazevo/frontend")
+	if p == nil {
+		return
+	}
+	info := p.TypesInfo
+	// the merge function: reads the per-block records of predecessors and records bounds for the current block
+	var merge *ast.FuncDecl
+	core.AllFuncDecls(p, func(fd *ast.FuncDecl) {
+		readsPred, records := false, false
+		ast.Inspect(fd.Body, func(x ast.Node) bool {
+			if call, ok := x.(*ast.CallExpr); ok {
+				if f := core.Callee(info, call); f != nil {
+					if f.Name() == "Pred" {
+						readsPred = true
+					}
+					if f.Name() == "recordKnownSafeBound" {
+						records = true
+					}
+				}
+			}
+			return true
+		})
+		if readsPred && records {
+			merge = fd
+		}
+	})
+	if merge == nil {
+		c.Undecided(rule, "elision-cache merge function", 0, "no function reads predecessors' records and records bounds")
+		return
+	}
+	// (a) every predecessor participates: appends of a predecessor's record are unconditional statements of a loop
+	// over all predecessors
+	var bad []string
+	nAppend := 0
+	var stack []ast.Node
+	ast.Inspect(merge.Body, func(x ast.Node) bool {
+		if x == nil {
+			stack = stack[:len(stack)-1]
+			return true
+		}
+		stack = append(stack, x)
+		call, ok := x.(*ast.CallExpr)
+		if !ok || !core.IsBuiltin(info, call, "append") {
+			return true
+		}
+		mentionsPred := false
+		ast.Inspect(call, func(y ast.Node) bool {
+			if c2, ok := y.(*ast.CallExpr); ok {
+				if f := core.Callee(info, c2); f != nil && f.Name() == "Pred" {
+					mentionsPred = true
+				}
+			}
+			return true
+		})
+		if !mentionsPred {
+			// an append of a variable bound from a predecessor's record under a condition
+			for _, a := range call.Args[1:] {
+				if id, ok := ast.Unparen(a).(*ast.Ident); ok {
+					for i := len(stack) - 1; i >= 0; i-- {
+						if is, ok := stack[i].(*ast.IfStmt); ok && is.Init != nil {
+							if as, ok := is.Init.(*ast.AssignStmt); ok && len(as.Lhs) == 1 {
+								if l, ok := as.Lhs[0].(*ast.Ident); ok && info.Defs[l] == info.Uses[id] {
+									ast.Inspect(as.Rhs[0], func(y ast.Node) bool {
+										if c2, ok := y.(*ast.CallExpr); ok {
+											if f := core.Callee(info, c2); f != nil && f.Name() == "Pred" {
+												mentionsPred = true
+											}
+										}
+										return true
+									})
+								}
+							}
+						}
+					}
+				}
+			}
+			if !mentionsPred {
+				return true
+			}
+		}
+		nAppend++
+		// enclosing statements between the loop and the append must not be conditionals
+		for i := len(stack) - 2; i >= 0; i-- {
+			switch s := stack[i].(type) {
+			case *ast.IfStmt, *ast.SwitchStmt:
+				if _, isSw := s.(*ast.SwitchStmt); isSw {
+					continue // the dispatch on the number of predecessors
+				}
+				bad = append(bad, "a predecessor's record is appended only under a condition at "+c.Pos(call.Pos()))
+			case *ast.ForStmt, *ast.RangeStmt:
+				i = -1
+			}
+		}
+		return true
+	})
+	c.Check(len(bad) == 0 && nAppend > 0, rule, "every predecessor's record takes part in the intersection ("+merge.Name.Name+")", merge.Pos(), fmt.Sprintf("%d unconditional append(s) in the loop over the predecessors", nAppend),
+		strings.Join(bad, "; ")+": a predecessor that checked nothing (the synthetic else of an `if`, a br_table trampoline) is left out of the intersection, so a ceiling checked on one arm only is assumed after the join and the access is emitted without a bounds check")
+	// (b) selection among bounds is a minimum
+	var maxSel []string
+	nSel := 0
+	isBound := func(e ast.Expr) bool {
+		s := strings.ToLower(core.ExprStr(e))
+		return strings.HasSuffix(s, "bound")
+	}
+	ast.Inspect(merge.Body, func(x ast.Node) bool {
+		is, ok := x.(*ast.IfStmt)
+		if !ok {
+			return true
+		}
+		be, ok := ast.Unparen(is.Cond).(*ast.BinaryExpr)
+		if !ok || !isBound(be.X) || !isBound(be.Y) {
+			return true
+		}
+		var less bool // cond true ⇒ X < Y (or ≤)
+		switch be.Op {
+		case token.LSS, token.LEQ:
+			less = true
+		case token.GTR, token.GEQ:
+			less = false
+		default:
+			return true
+		}
+		for _, st := range is.Body.List {
+			as, ok := st.(*ast.AssignStmt)
+			if !ok || len(as.Lhs) != 1 || len(as.Rhs) != 1 {
+				continue
+			}
+			l, r := core.ExprStr(as.Lhs[0]), core.ExprStr(as.Rhs[0])
+			xs, ys := core.ExprStr(be.X), core.ExprStr(be.Y)
+			var picksSmaller, known bool
+			switch {
+			case l == ys && r == xs: // Y = X
+				picksSmaller, known = less, true
+			case l == xs && r == ys: // X = Y
+				picksSmaller, known = !less, true
+			}
+			if known {
+				nSel++
+				if !picksSmaller {
+					maxSel = append(maxSel, "`"+core.ExprStr(is.Cond)+"` then `"+l+" = "+r+"` at "+c.Pos(is.Pos()))
+				}
+			}
+		}
+		return true
+	})
+	c.Check(len(maxSel) == 0 && nSel > 0, rule, "bounds known on several paths are merged by taking the minimum ("+merge.Name.Name+")", merge.Pos(), fmt.Sprintf("%d selection(s), all keep the smaller bound", nSel),
+		strings.Join(maxSel, "; ")+": the larger of two checked ceilings is kept after a join; on the path that checked the smaller one the later access is emitted without a bounds check and reads or writes past the memory")
+}
+
+// ---------------------------------------------------------------------------------------------------------
+// R02.9 32-bit address arithmetic in front of an accessor is guarded against wrap-around
+
+func checkAddressWrapGuards(c *core.Ctx) {
+	p := c.Pkg("internal/engine/interpreter")
+	if p == nil {
+		return
+	}
+	info := p.TypesInfo
+	n := 0
+	core.AllFuncDecls(p, func(fd *ast.FuncDecl) {
+		ast.Inspect(fd.Body, func(x ast.Node) bool {
+			cc, ok := x.(*ast.CaseClause)
+			if !ok {
+				return true
+			}
+			// only the innermost clause that directly contains the accessor call
+			for _, st := range cc.Body {
+				ast.Inspect(st, func(y ast.Node) bool {
+					if _, nested := y.(*ast.CaseClause); nested {
+						return false
+					}
+					call, ok := y.(*ast.CallExpr)
+					if !ok || len(call.Args) == 0 {
+						return true
+					}
+					f := core.Callee(info, call)
+					if f == nil || core.RecvNameOf(f) != "MemoryInstance" {
+						return true
+					}
+					be, ok := ast.Unparen(call.Args[0]).(*ast.BinaryExpr)
+					if !ok || be.Op != token.ADD {
+						return true
+					}
+					if b, ok := info.Types[be].Type.Underlying().(*types.Basic); !ok || b.Kind() != types.Uint32 {
+						return true
+					}
+					n++
+					base, add := core.ExprStr(be.X), core.ExprStr(be.Y)
+					guarded := false
+					for _, prev := range cc.Body {
+						if prev.Pos() >= call.Pos() {
+							break
+						}
+						ast.Inspect(prev, func(z ast.Node) bool {
+							if is, ok := z.(*ast.IfStmt); ok && is.Pos() < call.Pos() {
+								cs := strings.ReplaceAll(core.ExprStr(is.Cond), " ", "")
+								if strings.Contains(cs, "uint64("+base+")+"+add) && strings.Contains(cs, "MaxUint32") {
+									guarded = true
+								}
+							}
+							return true
+						})
+					}
+					label := ""
+					if len(cc.List) > 0 {
+						label = constNameOf(info, cc.List[0])
+					}
+					c.Check(guarded, "R02.9", fmt.Sprintf("interpreter arm %s: `%s` cannot wrap before %s", label, core.ExprStr(be), f.Name()), call.Pos(),
+						"preceded by `uint64("+base+")+"+add+" > math.MaxUint32` → out-of-bounds trap",
+						"the address `"+core.ExprStr(be)+"` is computed in 32 bits without a wrap-around guard: on a 4 GiB memory an access that ends beyond the memory wraps to address 0 and touches the first bytes instead of trapping")
+					return true
+				})
+			}
+			return true
+		})
+	})
+	if n == 0 {
+		c.Discharge("R02.9", "no 32-bit address arithmetic in front of an accessor", 0, "nothing to guard")
+	}
 }
